@@ -116,7 +116,7 @@ fn stallers(ctx: &mut Ctx) {
     let extra_offs: Vec<usize> = (1..nstall).map(|_| ctx.plan(hb.len() as u64 + if kind == Kind::Req || crowd { 0 } else { 1 }) as usize).collect();
     let extra_modes: Vec<Mode> = (1..nstall).map(|_| if crowd { Mode::Stop } else { MODES[ctx.plan(3) as usize] }).collect();
     let abort_in_backlog = ctx.plan_bool();
-    let accept_error = ctx.idx >= 54 * (hb.len() as u64 + 1) && !ipc && ctx.plan(4) == 0;
+    let accept_error = ctx.idx >= 54 * (hb.len() as u64 + 1) && ctx.plan(4) == 0;
     // one disturbed case in 64: 1030..1200 sequential well-behaved clients behind the stallers
     let long_history = ctx.idx >= 54 * (hb.len() as u64 + 1) && !crowd && !matches!(kind, Kind::Req | Kind::Push | Kind::Dealer) && ctx.plan(64) == 1; // (round-robin senders learn of a departure only when a write fails: a thousand departed clients would sit in their rotation and defeat the bounded probe below)
     let long_n: u32 = 1030 + ctx.plan(170) as u32;
